@@ -47,7 +47,7 @@ var builtinPrefixes = map[string]string{
 	"raml-shapes": "http://a.ml/vocabularies/shapes#", "doc": "http://a.ml/vocabularies/document#",
 	"meta": "http://a.ml/vocabularies/meta#", "apiContract": "http://a.ml/vocabularies/apiContract#",
 	"core": "http://a.ml/vocabularies/core#", "xsd": "http://www.w3.org/2001/XMLSchema#",
-	"security": "http://a.ml/vocabularies/security#",
+	"security": "http://a.ml/vocabularies/security#", "apiExt": "http://a.ml/vocabularies/api-extension#",
 }
 
 func permute(n int, arg int, rnd *rand.Rand) []int {
@@ -246,6 +246,10 @@ func applyWalk(text string, walk []rwOp, seed int64) (string, []string, error) {
 			q = func(n *yaml.Node) {
 				if n.Kind == yaml.ScalarNode && n.Tag == "!!str" && rnd.Intn(3) > 0 {
 					n.Style = st
+					if strings.Contains(n.Value, "\n") && rnd.Intn(2) == 0 {
+						// a text with line breaks may as well be a block scalar, folded or literal
+						n.Style = []yaml.Style{yaml.FoldedStyle, yaml.LiteralStyle}[rnd.Intn(2)]
+					}
 				}
 				for _, c := range n.Content {
 					q(c)
@@ -323,6 +327,32 @@ func applyWalk(text string, walk []rwOp, seed int64) (string, []string, error) {
 				}
 			}
 		case "builtinAlias":
+			if op.Arg == 2 {
+				// a fresh name bound to the namespace of a built-in prefix the profile uses, written instead of it
+				prefixes := mget(root, "prefixes")
+				if prefixes == nil {
+					prefixes = &yaml.Node{Kind: yaml.MappingNode, Tag: "!!map"}
+					root.Content = append(root.Content, &yaml.Node{Kind: yaml.ScalarNode, Tag: "!!str", Value: "prefixes"}, prefixes)
+				}
+				text, _ := yaml.Marshal(root)
+				var used []string
+				for p := range builtinPrefixes {
+					if mget(prefixes, p) == nil && (strings.Contains(string(text), " "+p+".") || strings.Contains(string(text), "{"+p+".") || strings.Contains(string(text), "("+p+".")) {
+						used = append(used, p)
+					}
+				}
+				sort.Strings(used)
+				q := []string{"zz", "my-ns"}[rnd.Intn(2)]
+				if len(used) == 0 || mget(prefixes, q) != nil {
+					applied[len(applied)-1] += "(skipped)"
+					continue
+				}
+				p := used[rnd.Intn(len(used))]
+				prefixes.Content = append(prefixes.Content, &yaml.Node{Kind: yaml.ScalarNode, Tag: "!!str", Value: q},
+					&yaml.Node{Kind: yaml.ScalarNode, Tag: "!!str", Value: builtinPrefixes[p]})
+				rewriteUses(root, p, q, "all")
+				continue
+			}
 			prefixes := mget(root, "prefixes")
 			if mget(prefixes, "shapes") != nil || mget(prefixes, "raml-shapes") != nil {
 				applied[len(applied)-1] += "(skipped)"
